@@ -36,6 +36,15 @@ pub struct WireState {
     pub log_writes: bool,
     /// Log every successful write call with the documents it carried (C02).
     pub log_write_docs: bool,
+    /// Callback invoked with every successfully written buffer (the server family parses replies).
+    pub on_write: Option<OnWrite>,
+}
+
+pub struct OnWrite(pub Box<dyn FnMut(u32, &[u8])>);
+impl std::fmt::Debug for OnWrite {
+    fn fmt(&self, f: &mut std::fmt::Formatter<'_>) -> std::fmt::Result {
+        f.write_str("OnWrite")
+    }
 }
 
 pub type Wire = Rc<RefCell<WireState>>;
@@ -142,6 +151,10 @@ impl WriteHalf for W {
             }
             w.out.extend_from_slice(buf);
             w.writes.push(buf.len());
+            if let Some(mut cb) = w.on_write.take() {
+                (cb.0)(tag, buf);
+                w.on_write = Some(cb);
+            }
             if w.log_write_docs {
                 let (frames, complete) = split_frames(buf);
                 let ndocs = if complete { frames.len() } else { frames.len() - 1 };
